@@ -32,8 +32,26 @@ pub fn enabled() -> bool {
     sink().is_some()
 }
 
+static ONLY: OnceLock<Option<alloc::vec::Vec<String>>> = OnceLock::new();
+
+/// `P3R_TRACE_EVENTS=a,b`: keep only events whose `"ev"` is one of the listed names (default: all).
+fn wanted(fields: &str) -> bool {
+    let only = ONLY.get_or_init(|| {
+        std::env::var("P3R_TRACE_EVENTS")
+            .ok()
+            .map(|s| s.split(',').map(|x| std::format!("\"ev\":\"{x}\"")).collect())
+    });
+    match only {
+        None => true,
+        Some(names) => names.iter().any(|n| fields.contains(n.as_str())),
+    }
+}
+
 /// Append one event: `{"seq":n,"tid":t,<fields>}`; `fields` is the inside of a JSON object.
 pub fn emit(fields: &str) {
+    if !wanted(fields) {
+        return;
+    }
     if let Some(m) = sink() {
         let seq = SEQ.fetch_add(1, std::sync::atomic::Ordering::SeqCst);
         let tid = std::format!("{:?}", std::thread::current().id());
